@@ -237,45 +237,113 @@ def hll_cpc_bound_shapes(facts):
             upper = fn["name"] == "getUpperBound"
             relt = "see bound"
             key = "HllArray::%s:formula" % fn["name"]
-            ok = ("(getEstimate()/(1+getRelErr(%s," % ("true" if upper else "false")) in t and any(txt(s.get("e")).startswith("checkNumStdDev(") for s in stmts_of(fn["body"]) if s.get("k") == "Expr")
+            import semantics
+            t = semantics.symbolic_return(fn, params=True) or "?"     # locals substituted in program order, parameters by position
+            ok = C("(getEstimate()/(1+getRelErr(%s,oooFlag_,lgConfigK_,p0)))" % ("true" if upper else "false")) in t and any(txt(s.get("e")).startswith("checkNumStdDev(") for s in stmts_of(fn["body"]) if s.get("k") == "Expr")
             if ok:
                 out.append(ob("bounds.shape", key, fn["pat"], "discharged", "estimate / (1 + relErr) with relErr from the %s table (negative for upper, positive for lower), numStdDev validated" % ("upper" if upper else "lower"), fn["qname"]))
             else:
                 out.append(ob("bounds.shape", key, fn["pat"], "violated", "bound is `%s` with relErr = `%s`: expected estimate / (1 + getRelErr(%s, ...)) after checkNumStdDev" % (t, relt, "true" if upper else "false"), fn["qname"]))
         if rect == "datasketches::CouponList" and fn["name"] in ("getLowerBound", "getUpperBound"):
-            inl = {d: v["init"] for d, v in local_decls(fn).items() if v.get("init") is not None and v["n"] == "tmp"}
-            r = returns_of(fn)
-            t = txt(r[0]["e"], inl).replace(" ", "") if r else "?"
+            import semantics
+            t = (semantics.symbolic_return(fn, params=True) or "?").replace("hll_constants::", "")
             upper = fn["name"] == "getUpperBound"
-            want = "(est/(1-(numStdDev*COUPON_RSE)))" if upper else "(est/(1+(numStdDev*COUPON_RSE)))"
+            want = C("(usingXAndYTables(couponCount_)/(1%s(p0*COUPON_RSE)))" % ("-" if upper else "+"))
             key = "CouponList::%s:formula" % fn["name"]
-            if want in t.replace("hll_constants::", "") and t.startswith("fmax("):
+            if want in t and t.startswith("fmax("):
                 out.append(ob("bounds.shape", key, fn["pat"], "discharged", "fmax(est / (1 %s n * RSE), couponCount)" % ("-" if upper else "+"), fn["qname"]))
             else:
                 out.append(ob("bounds.shape", key, fn["pat"], "violated", "bound is `%s`, expected fmax(%s, couponCount_)" % (t, want), fn["qname"]))
         if rect == "datasketches::RelativeErrorTables" and fn["name"] == "getRelErr":
-            # switch routes (oooFlag, upperBound) to the four tables
-            arms = {}
-            cur = [None]
-            sw = []
-            walk(fn["body"], lambda n: sw.append(n) if n.get("k") == "Switch" else None)
-            if sw:
-                for c in stmts_of(sw[0]["b"]):
-                    if c.get("k") == "Case":
-                        cur[0] = strip(c["v"]).get("v")
-                        walk(c["s"], lambda n: arms.__setitem__(cur[0], txt(n["r"])) if n.get("k") == "Assign" else None)
-                    elif cur[0] is not None:
-                        walk(c, lambda n: arms.__setitem__(cur[0], txt(n["r"])) if n.get("k") == "Assign" and cur[0] not in arms else None)
-            want = {0: "HIP_LB[idx]", 1: "HIP_UB[idx]", 2: "NON_HIP_LB[idx]", 3: "NON_HIP_UB[idx]"}
-            inl = {d: v["init"] for d, v in local_decls(fn).items() if v.get("init") is not None}
-            idx = [txt(v["init"]).replace(" ", "") for v in local_decls(fn).values() if v["n"] == "idx"]
-            swx = [txt(v["init"]).replace(" ", "") for v in local_decls(fn).values() if v["n"] == "sw"]
+            # (upperBound, oooFlag) select one of the four tables: decided as a truth table over the two boolean parameters -
+            # for each of the four assignments exactly one table read is reachable (switch on a packed code, if-chain or nested
+            # ifs alike), it is the right table, and its index is (lgK - 4) * 3 + (stdDev - 1); names of locals / parameters
+            # do not matter
+            from astu import single_assignment_locals
+            sa = single_assignment_locals(fn)
+            ps = fn.get("params") or []
             key = "RelativeErrorTables::getRelErr:routing"
-            ok = arms == want and idx == ["(((lgK-4)*3)+(stdDev-1))"] and swx == ["((oooFlag?2:0)|(upperBound?1:0))"]
-            if ok:
-                out.append(ob("bounds.shape", key, fn["pat"], "discharged", "index (lgK-4)*3 + (stdDev-1); (ooo, upper) routed to HIP/NON_HIP x LB/UB", fn["qname"]))
+            if len(ps) != 4:
+                out.append(ob("bounds.shape", key, fn["pat"], "unrecognised", "getRelErr no longer takes (upperBound, oooFlag, lgK, stdDev)", fn["qname"]))
+                continue
+            pd = [p.get("d") for p in ps]
+            penv = {ps[i]["d"]: {"k": "Ref", "n": "p%d" % i, "d": None, "dk": "synthetic"} for i in range(4)}
+            inl = dict(sa)
+            inl.update(penv)
+
+            def ieval(e, asg, depth=0):
+                e = strip_all(e)
+                if not isinstance(e, dict) or depth > 12:
+                    return None
+                k = e.get("k")
+                if k == "Paren":
+                    return ieval(e.get("e"), asg, depth + 1)
+                if k == "Bool":
+                    return bool(e.get("b"))
+                if k == "Int":
+                    return e.get("v")
+                if k == "Ref":
+                    if e.get("d") in asg:
+                        return asg[e["d"]]
+                    if e.get("d") in sa:
+                        return ieval(sa[e["d"]], asg, depth + 1)
+                    return e.get("v") if isinstance(e.get("v"), int) else None
+                if k == "Cond":
+                    c = ieval(e["c"], asg, depth + 1)
+                    if c is None:
+                        return None
+                    return ieval(e["a"] if c else e["e"], asg, depth + 1)
+                if k == "Un" and e.get("op") == "!":
+                    x = ieval(e["e"], asg, depth + 1)
+                    return None if x is None else (not x)
+                if k == "Bin":
+                    op = e.get("op")
+                    l, r = ieval(e["l"], asg, depth + 1), ieval(e["r"], asg, depth + 1)
+                    if op == "&&":
+                        return False if (l is False or r is False) else (None if (l is None or r is None) else bool(l and r))
+                    if op == "||":
+                        return True if (l is True or r is True) else (None if (l is None or r is None) else bool(l or r))
+                    if l is None or r is None:
+                        return None
+                    l, r = int(l), int(r)
+                    try:
+                        return {"|": l | r, "&": l & r, "+": l + r, "-": l - r, "*": l * r, "<<": l << r if 0 <= r < 64 else None, "^": l ^ r,
+                                "==": l == r, "!=": l != r, "<": l < r, "<=": l <= r, ">": l > r, ">=": l >= r}.get(op)
+                    except Exception:
+                        return None
+                return None
+            TABLES = ("HIP_LB", "HIP_UB", "NON_HIP_LB", "NON_HIP_UB")
+            uses = []
+            walk(fn["body"], lambda n: uses.append(n) if n.get("k") in ("Index", "OpCall") and txt(n).split("[")[0].split("::")[-1] in TABLES and "[" in txt(n) else None)
+            probs = []
+            if len(uses) < 4:
+                probs.append("only %d reads of the four tables found" % len(uses))
+            for u in uses:
+                it = txt(u, inl).replace(" ", "")
+                ix = it[it.index("[") + 1:-1]
+                if C(ix) != C("(((p2-4)*3)+(p3-1))"):
+                    probs.append("%s is indexed with `%s`, expected (lgK - 4) * 3 + (stdDev - 1)" % (txt(u).split("[")[0], ix))
+            for upper_v in (False, True):
+                for ooo_v in (False, True):
+                    asg = {pd[0]: upper_v, pd[1]: ooo_v}
+                    live = []
+                    for u in uses:
+                        vals = [ieval(l, asg) for l in reach(fn["body"], u)]
+                        if any(v is None for v in vals):
+                            probs.append("a condition above `%s` cannot be evaluated from (upperBound, oooFlag)" % txt(u))
+                            live = None
+                            break
+                        if all(vals):
+                            live.append(txt(u).split("[")[0].split("::")[-1])
+                    if live is None:
+                        continue
+                    want_t = ("NON_HIP_" if ooo_v else "HIP_") + ("UB" if upper_v else "LB")
+                    if sorted(set(live)) != [want_t]:
+                        probs.append("for upperBound=%s, oooFlag=%s the table read is %s, expected %s" % (upper_v, ooo_v, sorted(set(live)) or "none", want_t))
+            if not probs:
+                out.append(ob("bounds.shape", key, fn["pat"], "discharged", "index (lgK-4)*3 + (stdDev-1); (ooo, upper) routed to HIP/NON_HIP x LB/UB for all four assignments", fn["qname"]))
             else:
-                out.append(ob("bounds.shape", key, fn["pat"], "violated", "table routing is %s with idx=%s sw=%s; expected %s" % (arms, idx, swx, want), fn["qname"]))
+                out.append(ob("bounds.shape", key, fn["pat"], "violated", "; ".join(sorted(set(probs))[:4]) + ": the bound is computed from the wrong relative-error table / row", fn["qname"]))
     cf = functions_by(facts, ["cpc"])
     for pat, fn in sorted(cf.items()):
         if fn["name"] in ("get_icon_confidence_lb", "get_icon_confidence_ub", "get_hip_confidence_lb", "get_hip_confidence_ub") and fn.get("rect") is None:
